@@ -125,6 +125,29 @@ pub fn run(ctx: &Ctx) -> Report {
             }
         }
     }
+    // two (three) flushes whose distance in layer data is a whole number of compression blocks / encryption chunks:
+    // the second flush finds the layer at the same in-block offset as the first, in a later block (a "nothing
+    // written since the last flush" test keyed on the in-block offset is wrong exactly there)
+    for (unit, layers) in [(CONSTS.block, L_COMP), (CONSTS.block, L_COMP | L_ENC), (2 * CONSTS.block, L_COMP), (CONSTS.chunk, L_ENC), (CONSTS.chunk, L_COMP | L_ENC)] {
+        for delta in [-1i64, 0, 1] {
+            for first in [0usize, 9, 1000] {
+                let first = if CONSTS.scaled { first.min(CONSTS.block / 2) } else { first };
+                let n = (unit as i64 - 17 + delta).max(1) as usize;
+                let cfg = Cfg::make(&mut rng, layers);
+                let mut ops = vec![Op::Start("z".into())];
+                if first > 0 { ops.push(Op::Append { id: 0, size: first as u64, src: rng.bytes(first, 3) }); }
+                ops.push(Op::Flush);
+                ops.push(Op::Append { id: 0, size: n as u64, src: rng.bytes(n, 3) });
+                ops.push(Op::Flush);
+                ops.push(Op::Append { id: 0, size: n as u64, src: rng.bytes(n, 2) });
+                ops.push(Op::Flush);
+                ops.push(Op::End(0));
+                ops.push(Op::Finalize);
+                rep.count("flushes-a-whole-block-apart");
+                check(&mut rep, &mut model, &cfg, &ops);
+            }
+        }
+    }
     let n = if CONSTS.scaled { ctx.budget(600, 8000) } else { ctx.budget(80, 1500) };
     for i in 0..n {
         let cfg = Cfg::make(&mut rng, (i % 4) as u8);
